@@ -351,3 +351,113 @@ def _bind(target: ast.expr, value, env: dict[str, object]) -> None:
 
 def txt(e: ast.AST) -> str:
     return " ".join(ast.unparse(e).split())
+
+
+# ------------------------------------------------------------------------------------------
+# tiny statement interpreter for small helper functions (assign / if / return / set.add ...)
+class _Return(Exception):
+    def __init__(self, value):
+        self.value = value
+
+
+class Obj:
+    """Attribute bag used as a stand-in for `self` / `req` in mini_exec."""
+
+    def __init__(self, **kw):
+        self.__dict__.update(kw)
+
+
+def _eval_x(e: ast.AST, env: dict[str, object], funcs: dict[str, object]):
+    """mini_eval extended with attribute access on Obj values and rule-supplied callables."""
+    key = " ".join(ast.unparse(e).split())
+    if key in env:
+        return env[key]
+    if isinstance(e, ast.Name):
+        raise AnalysisError(f"mini_exec: free name {e.id}")
+    if isinstance(e, ast.Attribute):
+        base = _eval_x(e.value, env, funcs)
+        if isinstance(base, Obj) and hasattr(base, e.attr):
+            return getattr(base, e.attr)
+        raise AnalysisError(f"mini_exec: free attribute {key[:60]}")
+    if isinstance(e, ast.Call):
+        fk = " ".join(ast.unparse(e.func).split())
+        if fk in funcs:
+            return funcs[fk](*[_eval_x(a, env, funcs) for a in e.args])  # type: ignore[operator]
+        if isinstance(e.func, ast.Attribute) and e.func.attr in ("add", "discard", "append", "clear") and not e.keywords:
+            recv = _eval_x(e.func.value, env, funcs)
+            if isinstance(recv, (set, list)):
+                return getattr(recv, e.func.attr)(*[_eval_x(a, env, funcs) for a in e.args])
+    if isinstance(e, ast.BoolOp):
+        r: object = isinstance(e.op, ast.And)
+        for v in e.values:
+            r = _eval_x(v, env, funcs)
+            if bool(r) != isinstance(e.op, ast.And):
+                return r
+        return r
+    if isinstance(e, ast.UnaryOp) and isinstance(e.op, ast.Not):
+        return not _eval_x(e.operand, env, funcs)
+    if isinstance(e, ast.IfExp):
+        return _eval_x(e.body, env, funcs) if _eval_x(e.test, env, funcs) else _eval_x(e.orelse, env, funcs)
+    if isinstance(e, ast.Compare) and len(e.ops) == 1:
+        f = _CMP.get(type(e.ops[0]))
+        if f is not None:
+            return f(_eval_x(e.left, env, funcs), _eval_x(e.comparators[0], env, funcs))
+    if isinstance(e, ast.Constant):
+        return e.value
+    # delegate to mini_eval with a pre-resolved environment of the sub-expressions it cannot see through
+    sub: dict[str, object] = dict(env)
+    for n in ast.walk(e):
+        if n is e:
+            continue
+        if isinstance(n, (ast.Attribute, ast.Call)):
+            k = " ".join(ast.unparse(n).split())
+            if k not in sub:
+                try:
+                    sub[k] = _eval_x(n, env, funcs)
+                except AnalysisError:
+                    pass
+    return mini_eval(e, sub)
+
+
+def mini_exec(fn: ast.FunctionDef, env: dict[str, object], funcs: dict[str, object] | None = None):
+    """Interpret a small helper (Assign / AnnAssign / AugAssign / If / Return / Expr / Pass) and return its value.
+    Mutable values placed in env (sets, lists, Obj) are shared with the caller, so state carried across calls is modelled."""
+    funcs = funcs or {}
+
+    def run(stmts: list[ast.stmt]) -> None:
+        for st in stmts:
+            if isinstance(st, ast.Expr) and isinstance(st.value, ast.Constant):
+                continue  # docstring
+            if isinstance(st, ast.Pass):
+                continue
+            if isinstance(st, ast.Return):
+                raise _Return(_eval_x(st.value, env, funcs) if st.value is not None else None)
+            if isinstance(st, (ast.Assign, ast.AnnAssign)):
+                if st.value is None:
+                    continue
+                v = _eval_x(st.value, env, funcs)
+                tgts = st.targets if isinstance(st, ast.Assign) else [st.target]
+                for t in tgts:
+                    if isinstance(t, ast.Name):
+                        env[t.id] = v
+                    elif isinstance(t, ast.Attribute):
+                        base = _eval_x(t.value, env, funcs)
+                        if not isinstance(base, Obj):
+                            raise AnalysisError("mini_exec: attribute store on unknown object")
+                        setattr(base, t.attr, v)
+                    else:
+                        raise AnalysisError("mini_exec: unsupported assignment target")
+                continue
+            if isinstance(st, ast.If):
+                run(st.body if _eval_x(st.test, env, funcs) else st.orelse)
+                continue
+            if isinstance(st, ast.Expr):
+                _eval_x(st.value, env, funcs)
+                continue
+            raise AnalysisError(f"mini_exec: unsupported statement {type(st).__name__}")
+
+    try:
+        run(fn.body)
+    except _Return as r:
+        return r.value
+    return None
